@@ -95,9 +95,15 @@ func isHarnessFn(f *ssa.Function) bool {
 		}
 	}
 	pos := f.Pos()
+	if o := f.Origin(); o != nil && !pos.IsValid() {
+		pos = o.Pos()
+	}
+	for p := f; !pos.IsValid() && p != nil; p = p.Parent() {
+		pos = p.Pos()
+	}
 	if pos.IsValid() && f.Prog != nil {
 		fn := f.Prog.Fset.Position(pos).Filename
-		if strings.Contains(fn, "/zz_") || strings.Contains(fn, "/zzvsup/") {
+		if strings.Contains(fn, "/zz_") || strings.Contains(fn, "/zzvsup/") || strings.Contains(fn, "/zzvlib/") {
 			return true
 		}
 	}
@@ -348,6 +354,10 @@ func (e *Engine) fail(kind, label, negCond string) {
 }
 
 func (e *Engine) failAt(kind, label, site, negCond string) {
+	// output events matter to C17 only; stores by read-only operations to C18 (and the observers of C15/C16)
+	if kind == "output" && e.spec.Property != "C17" && e.spec.Property != "C00" {
+		return
+	}
 	if !e.solver.check(negCond) {
 		return
 	}
